@@ -86,6 +86,28 @@ def _ratio_shape(v: C.Term, mrts: str) -> Optional[Tuple[C.Term, C.Term]]:
     return None
 
 
+def _ratio_of(a: C.Term, b: C.Term, mrts: str) -> C.Term:
+    """|a - b| / max(a, b, MRTS) in canonical form"""
+    return C.div(C.mk_abs(C.sub(a, b)), C.mk_minmax('max', [a, b, C.atom(('n', mrts))]))
+
+
+def _ratio_pair(v: C.Term, env, mrts: str, hint: Optional[Tuple[str, str]] = None) -> Optional[Tuple[str, str]]:
+    """Names of two variables x, y of the state with v == |x - y| / max(x, y, MRTS) (by value: nested and flat
+    spellings of the maximum, and interval values that are themselves maxima, all agree)."""
+    names = [k for k, val in env.vals.items() if C.is_poly(val)]
+    pairs = [hint] if hint else [(x, y) for i, x in enumerate(names) for y in names[i + 1:]]
+    for x, y in pairs:
+        vx, vy = C.to_poly(env.get(x)), C.to_poly(env.get(y))
+        if C.is_const(vx) or C.is_const(vy):
+            continue
+        try:
+            if _ratio_of(vx, vy, mrts) == v:
+                return x, y
+        except Exception:
+            continue
+    return None
+
+
 def isi_spec(eng: SiblingEngine, fi: FuncInfo, profile: bool) -> List[Ob]:
     obs: List[Ob] = []
     fn = _fn(fi)
@@ -115,14 +137,13 @@ def isi_spec(eng: SiblingEngine, fi: FuncInfo, profile: bool) -> List[Ob]:
         cands = [(k, r[2]) for k, r in stores if r[0] == 'store' and C.is_poly(r[2])] + \
                 [(k, v) for k, v in env.vals.items() if C.is_poly(v)]
         for key, v in cands:
-            sh = _ratio_shape(v, mrts)
-            if sh:
+            pr = _ratio_pair(v, env, mrts)
+            if pr:
                 val_name = key
-                for nm, vv in env.vals.items():
-                    for a in sh:
-                        if vv == a:
-                            uses1 = ('n', s1) in C.atoms_of(a)
-                            nu[1 if uses1 else 2] = nm
+                for nm in pr:
+                    uses1 = ('n', s1) in C.atoms_of(C.to_poly(env.get(nm)))
+                    nu[1 if uses1 else 2] = nm
+                break
         break
     if val_name is None or len(nu) != 2:
         return [violation('R01.3', f"{fi.name} ({fi.path}): the first value of the profile is |a-b| / max(a, b, MRTS) with a, b the "
@@ -145,7 +166,8 @@ def isi_spec(eng: SiblingEngine, fi: FuncInfo, profile: bool) -> List[Ob]:
                 want = C.atom(('ifexp', gt1[k], d10, C.sub(te, sub(k, C.ZERO))))
                 wantc = C.ZERO
                 what = f"first interval of train {k} (first spike on t_start): s[1]-s[0] if N>1 else t_end-s[0]; cursor 0"
-            got = C.to_poly(env.get(nu[k]))
+            got = C.resolve_ifexp(C.to_poly(env.get(nu[k])), conds)
+            want = C.resolve_ifexp(want, conds)
             gotc = C.to_poly(env.get(c1 if k == 1 else c2))
             t = f"{fi.name} ({fi.path}): {what}"
             if got == want and gotc == wantc:
@@ -172,10 +194,9 @@ def isi_spec(eng: SiblingEngine, fi: FuncInfo, profile: bool) -> List[Ob]:
             cur = vs[-1][2] if vs else None
         else:
             cur = env.vals.get(val_name)
-        sh = _ratio_shape(cur, mrts) if cur is not None else None
         want_pair = {C.to_poly(env.get(nu[1])), C.to_poly(env.get(nu[2]))}
         t = f"{fi.name} ({fi.path}): value of the new piece is |v1-v2| / max(v1, v2, MRTS) over the updated intervals (path {n_path}: {ptxt})"
-        if sh and set(sh) == want_pair:
+        if cur is not None and C.is_poly(cur) and _ratio_of(C.to_poly(env.get(nu[1])), C.to_poly(env.get(nu[2])), mrts) == cur:
             obs.append(ok('R01.3', t, fi.loc(loop[-1]), construct=f"{fn}::ratio::{n_path}"))
         else:
             obs.append(violation('R01.3', t, fi.loc(loop[-1]), key=f"{fn}::isi-ratio::path{n_path}",
@@ -211,6 +232,8 @@ def isi_spec(eng: SiblingEngine, fi: FuncInfo, profile: bool) -> List[Ob]:
                 continue
             t = f"{fi.name} ({fi.path}): {what} (path {n_path})"
             # pin the cursor for comparison with the explicit spelling
+            got = C.resolve_ifexp(got, conds)
+            want = [C.resolve_ifexp(w, conds) for w in want]
             got_pinned = C.subst_atoms(got, {('n', cur_name): C.sub(N[k], C.const(2))}) if len(want) == 2 else got
             if got in want or got_pinned in want:
                 obs.append(ok('R01.4', t, fi.loc(loop[-1]), construct=f"{fn}::adv::{k}::{n_path}"))
@@ -302,69 +325,43 @@ def dist_at_t_spec(eng: SiblingEngine, fi: FuncInfo) -> List[Ob]:
     return obs
 
 
+GET_MIN_DIST_SPEC = """
+def get_min_dist(spike_time, spike_train, start_index, t_lower, t_upper):
+    # distance from spike_time to the nearest element of spike_train[start_index:] (a sorted array), where the two
+    # auxiliary times t_lower / t_upper stand for the spikes before the first and after the last one
+    d = abs(spike_time - t_lower)
+    if start_index < 0:
+        start_index = 0
+    while start_index < len(spike_train):
+        d_next = abs(spike_time - spike_train[start_index])
+        if d_next > d:
+            return d              # sorted array: the distances only grow from here on
+        d = d_next
+        start_index += 1
+    d_next = abs(t_upper - spike_time)
+    if d_next > d:
+        return d
+    return d_next
+"""
+
+
 def get_min_dist_spec(eng: SiblingEngine, fi: FuncInfo) -> List[Ob]:
-    """shape: d = |t - lower aux|; start = max(start, 0); scan upward, return on the first increase; finish with |upper aux - t|"""
-    obs: List[Ob] = []
-    fn = _fn(fi)
-    ps = [a.arg for a in fi.node.args.args]
+    """the nearest-spike helper equals the reference search: start from |t - lower aux|, clamp a negative start,
+    scan upward and return on the first strict increase, finish with |upper aux - t|"""
+    from .rules_specprog import equal_to_spec
     extra = eng._helper_extra.get(fi.qual, set())
-    pp = [p for p in ps if p not in extra]
-    if len(pp) != 5:
-        return [inconclusive('R02.6', f"{fi.name} ({fi.path}): has (time, train, start, lower, upper) parameters", fi.loc(), construct=fn)]
-    t, train, start, lo, hi = pp
-    env = Env()
-    bld = IRBuilder()
-    items = bld.build(fi.node.body)
-    whiles = [it for it in items if it[0] == 'while']
-    t_at = C.atom(('n', t))
-    checks = []
-    # initial distance
-    first = next((it for it in items if it[0] == 'simple' and isinstance(it[1], ast.Assign)), None)
-    if first is not None:
-        v = C.canon_expr(first[1].value, env)
-        checks.append(('starts from the distance to the lower auxiliary time', v == C.mk_abs(C.sub(t_at, C.atom(('n', lo)))), first[1], C.show(v)))
-    # clamp of start index
-    clamp = [it for it in items if it[0] == 'if' and len(it[1]) == 1 and C.canon_cond(it[1][0][0], env) == C.mk_cmp('lt', C.atom(('n', start)), C.ZERO)]
-    checks.append(('a negative start index is clamped to 0', len(clamp) == 1, fi.node, f"{len(clamp)} clamps"))
-    if len(whiles) == 1:
-        w = whiles[0]
-        cond = C.canon_cond(w[1], env)
-        bound = C.atom(('n', next(iter(extra)))) if extra else C.atom(('call', 'len', (C.atom(('n', train)),)))
-        checks.append(('scan runs while start < len(train)', cond == C.mk_cmp('lt', C.atom(('n', start)), bound), w[-1], C.show(cond)))
-        # body: d_temp = |t - train[start]|; if d_temp > d: return d else d = d_temp; start += 1
-        body = w[2]
-        ifs = [it for it in body if it[0] == 'if']
-        if len(ifs) == 1:
-            e2 = Env()
-            from .compare import Region
-            side = Side(fi)
-            pe = PathExec(side)
-            for it in body:
-                if it[0] == 'simple':
-                    pe.cmp.exec_simple(it[1], e2, Region(), side)
-                else:
-                    break
-            g = C.canon_cond(ifs[0][1][0][0], e2)
-            dist = C.mk_abs(C.sub(t_at, C.atom(('sub', ('n', train), C.atom(('n', start))))))
-            dname = first[1].targets[0].id if first is not None and isinstance(first[1].targets[0], ast.Name) else 'd'
-            checks.append(('returns on the first strict increase of the distance', g == C.mk_cmp('gt', dist, C.atom(('n', dname))),
-                           ifs[0][-1], C.show(g)))
-        else:
-            checks.append(('loop body has one early-return test', False, w[-1], f"{len(ifs)}"))
-    else:
-        checks.append(('one scan loop', False, fi.node, f"{len(whiles)} loops"))
-    # final: compare with |hi - t|
-    tail = [it for it in items if it[0] == 'simple' and isinstance(it[1], ast.Assign)]
-    if tail:
-        v = C.canon_expr(tail[-1][1].value, env)
-        checks.append(('finishes with the distance to the upper auxiliary time', v == C.mk_abs(C.sub(C.atom(('n', hi)), t_at)), tail[-1][1], C.show(v)))
-    for what, good, node, detail in checks:
-        ttl = f"{fi.name} ({fi.path}): nearest-spike search {what}"
-        if good:
-            obs.append(ok('R02.6', ttl, fi.loc(node), construct=f"{fn}::{what}"))
-        else:
-            obs.append(violation('R02.6', ttl, fi.loc(node), key=f"{fn}::get_min_dist::{what}", detail=detail))
-    return obs
+    if not extra:
+        # compiled helpers take the array length as an explicit parameter (typed int, not an array/double)
+        ps = [a.arg for a in fi.node.args.args]
+        if len(ps) == 6:
+            extra = {p for p in ps if fi.ctypes.get(p, '') == 'int' and p not in (ps[2],)} or set()
+            extra = {p for p in extra if p != ps[2]}
+            if len(extra) != 1:
+                extra = set()
+    return equal_to_spec(eng, fi, GET_MIN_DIST_SPEC, 'R02.6',
+                         'nearest-spike search equals the reference: starts from the distance to the lower auxiliary time, '
+                         'clamps a negative start index, returns on the first strict increase, ends with the upper auxiliary time',
+                         'get_min_dist', drop_params=extra)
 
 
 def spike_spec(eng: SiblingEngine, fi: FuncInfo, profile: bool) -> List[Ob]:
